@@ -9,3 +9,8 @@ UINT32 vm_setbit0 (UINT32 w, UINT32 i) { return of_mod2_setbit0 (w, i); }
 UINT32 vm_word_index (UINT32 c) { return c >> of_mod2_wordsize_shift; }
 UINT32 vm_bit_index (UINT32 c) { return c & of_mod2_wordsize_mask; }
 UINT32 vm_words_for (UINT32 n_cols) { return (n_cols + of_mod2_wordsize - 1) >> of_mod2_wordsize_shift; }
+
+/* column mapping macros of of_symbol.h: repair symbols occupy matrix columns 0..r-1, source symbols columns r..n-1 */
+struct vm_cb { UINT32 nb_source_symbols; UINT32 nb_repair_symbols; };
+INT32 vm_symbol_col (struct vm_cb *cb, UINT32 esi) { return of_get_symbol_col (cb, esi); }
+INT32 vm_symbol_esi (struct vm_cb *cb, UINT32 col) { return of_get_symbol_esi (cb, col); }
